@@ -42,7 +42,7 @@ func init() {
 	vc.Register(&vc.Check{
 		ID:    "C28",
 		Level: "exploration",
-		Rule: "schedules: all executions within the deviation bound (delay bounding; quick 3, thorough 4) of the real RPCClient (its reader goroutine, the user thread calling Stream/Monitor/Query then Stop and/or Close, and a scripted agent thread answering over an in-memory connection whose reads are scheduling points), with a scheduling point before every statement of respondSeq, deregisterHandler, deregisterAll, Close and the handlers' Handle/Cleanup; per subscriber kind (stream, monitor, query) x user program; non-trivial = at least one non-default choice",
+		Rule: "schedules: all executions within the deviation bound (delay bounding; quick 3, thorough 5; one less for the programs that subscribe on a closed, closing or dropped client) of the real RPCClient (its reader goroutine, the user thread calling Stream/Monitor/Query then Stop and/or Close, and a scripted agent thread answering over an in-memory connection whose reads are scheduling points), with a scheduling point before every statement of respondSeq, deregisterHandler, deregisterAll, Close and the handlers' Handle/Cleanup; per subscriber kind (stream, monitor, query) x user program; non-trivial = at least one non-default choice",
 		Assumptions: []string{
 			"the agent side is a scripted harness thread speaking the real msgpack wire format; records are sent right after the subscription is confirmed, so they race with Stop/Close",
 			"statement-level sequential consistency; a send on a closed channel or a second close surfaces as a panic of the thread that did it",
@@ -56,7 +56,7 @@ var c28site = regexp.MustCompile(`client\.\(\*\w+\)\.\w+|client\.\w+`)
 func c28run(ctx *vc.Ctx) {
 	bound := 3
 	if ctx.Thorough() {
-		bound = 4
+		bound = 5
 	}
 	for _, kind := range []string{"stream", "monitor", "query"} {
 		progs := []string{"stop", "close", "stop;close"}
